@@ -589,6 +589,20 @@ def check_c23(tier, seed):
             if e.get('shutdown_returns'): ck.ev.probe('consumer_returned_on_shutdown', e['shutdown_returns'])
         rounds += 1
         if tier == 'quick' or ck.time_left() < 300: break
+    # memory-access preemption (build variant "mem"): interleavings inside the SRM's critical sections and in whatever it does outside them
+    core.build('mem'); mcases = []
+    for i in range(600 if tier == 'quick' else 8000):
+        poller = rng.random() < 0.2
+        srm = {'objects': rng.randint(1, 4), 'producers': rng.randint(1, 3), 'consumers': 1 if poller else rng.randint(1, 3), 'per_producer': rng.randint(1, 8), 'poller': int(poller), 'extra_refs': rng.choice([0, 0, 1, 2]), 'releasers': rng.randint(1, 2), 'body_yields': rng.choice([0, 1])}
+        if rng.random() < 0.15: srm['early_shutdown_after'] = rng.randint(0, srm['producers'] * srm['per_producer'])
+        mcases.append({'world': 'srm', 'srm': srm, 'wall_timeout': 40, 'sim': dict(gen.schedule(rng, horizon=800, nthreads=10, allow_buggify=False), step_limit=1500000, mem=rng.choice([3, 7, 20, 60]))})
+    rs = pmap(lambda c: run_case(c, 'mem'), mcases, jobs=16)
+    for c, r in zip(mcases, rs):
+        ok = r.get('outcome') == 'ok' and r.get('delivered', 0) > 0
+        ck.ev.add_run(c, r, (r['sim']['trace_hash'], core.case_hash(c['srm']), 'mem') if ok else None)
+        ck.ev.fault('mem_preemption', (r.get('sim') or {}).get('mem_preemptions', 0)); ck.ev.probe('mem_accesses', (r.get('sim') or {}).get('mem_accesses', 0))
+        for v in relabel(single_violations(c, r, 'mem'), 'C23', ('TERM', 'CRASH')):
+            ck.add(v, 'single')
     # whole-encoder event traces
     enc = [mk(ck, {'logical_processors': lp, 'enc_mode': 8}, {'kind': 'mix', 'seed': rng.randint(1, 99)}, rng.randint(4, 10), (64, 64), sim=gen.schedule(rng), oracles={'decode': 0, 'parse': 0}) for lp in ([2, 4, 8] if tier == 'quick' else [1, 2, 4, 8, 16] * 6)]
     # object lifetimes differ per pipeline route (who releases PA references / references / input buffers depends on look-ahead, TPL,
@@ -649,6 +663,20 @@ def check_c24(tier, seed):
         e = r.get('events') or {}
         if e.get('seg_max_parallel_sbs', 0) >= 2: ck.ev.probe('parallel_sbs>=2')
         if e.get('seg_multi_segment_pictures'): ck.ev.probe('multi_segment_picture', e['seg_multi_segment_pictures'])
+    # memory-access preemption (build variant "mem", DESIGN.md 13.7): forced preemptions between individual loads and stores of the real
+    # assign_enc_dec_segments / SRM code, so that an update of the dependency counters or row cursors under the wrong lock (or none) is reachable
+    core.build('mem'); mcases = []
+    for i in range(500 if tier == 'quick' else 6000):
+        w, h = rng.randint(2, 12), rng.randint(2, 10)
+        seg = {'w': w, 'h': h, 'cols': rng.randint(1, 6), 'rows': rng.randint(2, 8), 'workers': rng.randint(2, 6), 'pictures': rng.randint(1, 3), 'w2': w, 'h2': h, 'max_cols': 8, 'max_rows': 8, 'body_yields': rng.choice([0, 1])}
+        mcases.append({'world': 'seg', 'seg': seg, 'wall_timeout': 40, 'sim': dict(gen.schedule(rng, horizon=2000, nthreads=seg['workers'] + 1, allow_buggify=False), step_limit=1500000, mem=rng.choice([3, 7, 20, 60]))})
+    rs = pmap(lambda c: run_case(c, 'mem'), mcases, jobs=16)
+    for c, r in zip(mcases, rs):
+        ok = r.get('outcome') == 'ok' and r.get('sbs', 0) > 0
+        sg = c['seg']; ck.ev.add_run(c, r, (sg['w'], sg['h'], sg['cols'], sg['rows'], sg['workers'], r['sim']['trace_hash'], 'mem') if ok else None)
+        ck.ev.fault('mem_preemption', (r.get('sim') or {}).get('mem_preemptions', 0)); ck.ev.probe('mem_accesses', (r.get('sim') or {}).get('mem_accesses', 0))
+        for v in relabel(single_violations(c, r, 'mem'), 'C24', ('TERM', 'CRASH')):
+            ck.add(v, 'single')
     if tier != 'quick': ck.ev.extra['exhaustive_over'] = 'all picture sizes 1..65 x 1..34 SBs x 4 representative segment grids (one schedule each) + 3000 random (size, grid, workers, schedule)'
     enc = [mk(ck, {'logical_processors': lp, 'enc_mode': 8, 'tile_columns': tc}, {'kind': 'mix', 'seed': rng.randint(1, 99)}, rng.randint(3, 6), wh, sim=gen.schedule(rng, allow_buggify=False), machine={'cores': lp, 'sockets': 1}, oracles={'decode': 0, 'parse': 0})
            for (lp, tc, wh) in ([(4, 0, (256, 192)), (8, 1, (320, 256)), (16, 0, (384, 256)), (2, 0, (352, 288)), (3, 0, (416, 240)), (4, 0, (336, 272)), (2, 0, (208, 144)), (3, 0, (464, 272))]
